@@ -37,7 +37,7 @@ ASSUMPTIONS = [
     "gradient exactness is demanded for linear functions only (as stated); for general multilinear functions adaptive == static is demanded",
 ]
 PROBES = ["dim1", "dim2", "dim3", "point_on_vertex", "point_on_grid_line", "point_on_upper_boundary", "point_on_lower_boundary", "batch_revisits_cell",
-          "warm_batch", "partial_batch", "gradient_query", "linear_function", "shifted_base_point", "negative_indices", "query_buffer_reused_in_place"]
+          "warm_batch", "partial_batch", "gradient_query", "linear_function", "shifted_base_point", "negative_indices", "query_buffer_reused_in_place", "external_values_mode", "known_vertices_reassigned"]
 
 
 def make_function(ch, d, linear):
@@ -90,7 +90,12 @@ def run_history_c41(ch, tr: Trace) -> None:
         high = low + h * (npt - 1)
         shift = np.array([ch.rng(-2, 2) if ch.flag(1, 3) else 0 for _ in range(d)])
         f, gradf, coefs = make_function(ch, d, linear)
+        # "external" mode: the adaptive table has no function; the caller asks which vertices a query needs
+        # (quadrature_points_from_coordinates), computes them and feeds them back (assign_values) before querying
+        external = ch.flag(1, 3)
     tr.probe(f"dim{d}")
+    if external:
+        tr.probe("external_values_mode")
     if linear:
         tr.probe("linear_function")
     base = low + shift * h  # a grid point of the same Cartesian grid
@@ -99,7 +104,7 @@ def run_history_c41(ch, tr: Trace) -> None:
     if np.any(shift > 0):
         tr.probe("negative_indices")
     static = pp.InterpolationTable(low, high, npt, f)
-    adaptive = pp.AdaptiveInterpolationTable(h.copy(), base_point=base.copy(), function=f, dim=1)
+    adaptive = pp.AdaptiveInterpolationTable(h.copy(), base_point=base.copy(), function=None if external else f, dim=1)
     verts = np.array(list(itertools.product(*[np.linspace(low[i], high[i], npt[i]) for i in range(d)]))).T
     scale = 1.0 + float(np.max(np.abs(f(*verts))))
     tol = 1e-9 * scale
@@ -164,6 +169,35 @@ def run_history_c41(ch, tr: Trace) -> None:
             if not np.allclose(vals, ex, rtol=0, atol=tol):
                 raise Violation("cache_consistent", f"after {where}: cached vertex values differ from the function at the cached coordinates")
 
+    def feed(x):
+        """External mode: the documented protocol that precedes a query."""
+        if not external:
+            return
+        ch.begin("feed")
+        try:
+            keep_known = ch.flag(1, 3)
+            # without indices the table locates the vertices by floor((x - base) / h): exact only in dyadic arithmetic
+            # (the docstring's own caveat: 'strongly recommended that the indices are also provided')
+            with_indices = not (ch.flag(1, 4) and dyadic)
+            one_by_one = ch.flag(1, 5)
+        finally:
+            ch.end()
+        try:
+            coord, ind = adaptive.quadrature_points_from_coordinates(x, remove_known_points=not keep_known)
+            vals = np.atleast_1d(f(*coord)) if coord.shape[1] else np.empty(0)
+            if keep_known and adaptive._table._coords.shape[1]:
+                tr.probe("known_vertices_reassigned")
+            if coord.shape[1] == 0:
+                return
+            if one_by_one:
+                for c in range(coord.shape[1]):
+                    adaptive.assign_values(vals[c:c + 1], coord[:, c].reshape((-1, 1)), indices=ind[:, c].reshape((-1, 1)) if with_indices else None)
+            else:
+                adaptive.assign_values(vals, coord, ind if with_indices else None)
+        except Exception as e:  # noqa: BLE001
+            raise Violation("adaptive_answers_every_point_in_box", f"feeding the vertices needed for {x.T.tolist()} (keep_known={keep_known}, indices={with_indices}, one_by_one={one_by_one}) raised {e!r}", "adaptive_feed_raised")
+        tr.op("feed", "ok", int(coord.shape[1]), keep_known, with_indices, one_by_one)
+
     def hit_class(before, after, x):
         if after == before:
             return "warm"
@@ -182,6 +216,7 @@ def run_history_c41(ch, tr: Trace) -> None:
             buf[0] = x.copy()
             arg = buf[0]
         before = adaptive._table._coords.shape[1]
+        feed(x)
         try:
             ya = adaptive.interpolate(arg)
         except Exception as e:  # noqa: BLE001
@@ -220,6 +255,7 @@ def run_history_c41(ch, tr: Trace) -> None:
         before = adaptive._table._coords.shape[1]
         # A derivative at a point exactly on a grid line of the differentiated axis is one-sided and, for a piecewise
         # linear interpolant of a multilinear function, still exact; on the upper box boundary the base cell does not exist.
+        feed(x)
         try:
             ga = adaptive.gradient(xq, axis)
         except Exception as e:  # noqa: BLE001
